@@ -174,6 +174,13 @@ Definition contains_e (s : list Z) : bool := mem_z 101 s || mem_z 69 s.
    q_instr: the runes lexed so far end inside a string or char literal (Lexer.inStringOrRune) *)
 Record queue : Type := mkQ { q_toks : list token; q_err : bool; q_instr : bool }.
 
+(* the places where parser.go would panic *)
+Inductive crash_site : Type :=
+| CBlockComment     (* ParseBlockComment: panic("internal error: inside a block comment ...") *)
+| CBacktick         (* ParseBacktickString: panic("internal error: inside a backtick string ...") *)
+| CIndex            (* the '{' look-ahead: lexer.tokens[i] with i out of range *)
+| CUintSlice.       (* case TokenUint64: tok.str[:len(tok.str)-3] with fewer than 3 bytes *)
+
 Inductive outcome : Type :=
 | ODone (acc : list sexp) (fuel : nat)   (* top level saw the end of the input: ParseTokens returns (acc, nil);
                                             fuel = the model's fuel for the next coroutine (that of the loop
@@ -181,7 +188,7 @@ Inductive outcome : Type :=
 | OMoreTop (acc : list sexp) (fuel : nat) (* top level saw the end of the input inside a string / char literal:
                                             ParseTokens returns (acc, ErrMoreInputNeeded); ParsingIter loops *)
 | OErr (acc : list sexp)                 (* ParseTokens returns (acc, hard error) *)
-| OCrash                                 (* a panic site of parser.go *)
+| OCrash (site : crash_site)             (* a panic site of parser.go *)
 | OFuel                                  (* the model ran out of fuel *)
 | OSusp (acc : list sexp) (n : nat) (toks : list token) (k : queue -> outcome).
                                          (* ParseTokens returns (acc, ErrMoreInputNeeded); the coroutine is
@@ -198,6 +205,11 @@ Definition tok_at (q : queue) (n : nat) : token := nth n (q_toks q) empty_token.
 Definition q_tail (q : queue) : queue := mkQ (tl (q_toks q)) (q_err q) (q_instr q).
 Definition q_push (t : token) (q : queue) : queue := mkQ (t :: q_toks q) (q_err q) (q_instr q).
 Definition kind_is (t : token) (k : tkind) : bool := tkind_eqb (t_kind t) k.
+Definition q_drop (n : nat) (q : queue) : queue := mkQ (skipn n (q_toks q)) (q_err q) (q_instr q).
+
+(* parser.go indexes lexer.tokens[n] directly in the '{' look-ahead; out of range is a Go panic *)
+Definition idx (q : queue) (n : nat) (k : token -> outcome) : outcome :=
+  match nth_error (q_toks q) n with Some t => k t | None => OCrash CIndex end.
 
 (* lexer.GetNextToken / PeekNextToken(0) WITHOUT a yield loop: at the end of the queue the Go code
    sees TokenEnd (or the lexer's error).  With [strict] the look-ahead yields instead.
@@ -213,6 +225,8 @@ Definition look (strict : bool) (acc : list sexp) (q : queue)
 
 Section Parser.
 Variable strict : bool.
+(* cfix = false: parser.go as it is (finding curly-comment-drop); true: the repaired pop *)
+Variable cfix : bool.
 
 (* parser.go: ParseBlockComment *)
 Fixpoint pblock (f : nat) (acc : list sexp) (q : queue) (text : list Z) (k : sexp -> queue -> outcome) : outcome :=
@@ -223,14 +237,14 @@ Fixpoint pblock (f : nat) (acc : list sexp) (q : queue) (text : list Z) (k : sex
         let tok := tok_at q1 0 in
         if kind_is tok TEndBlockComment then k (SComment true (text ++ t_str tok)) (q_tail q1)
         else if kind_is tok TComment then pblock f' acc (q_tail q1) (text ++ t_str tok) k
-        else OCrash)
+        else OCrash CBlockComment)
   end.
 
 (* parser.go: ParseBacktickString *)
 Definition pbacktick (acc : list sexp) (q : queue) (k : sexp -> queue -> outcome) : outcome :=
   need acc 0 q (fun q1 =>
     let tok := tok_at q1 0 in
-    if kind_is tok TBacktickString then k (SStr true (t_str tok)) (q_tail q1) else OCrash).
+    if kind_is tok TBacktickString then k (SStr true (t_str tok)) (q_tail q1) else OCrash CBacktick).
 
 (* parser.go: ParseExpression, case TokenLCurly: the loop that skips comments in the look-ahead.
    Invariant of the Go code: tok2 = tokens[extra-1]. *)
@@ -241,13 +255,13 @@ Fixpoint curly_skip (f : nat) (acc : list sexp) (q : queue) (tok2 : token) (extr
   | S f' =>
       if kind_is tok2 TBeginBlockComment then
         need acc (extra + 2) q (fun q1 =>
-          let tok2' := tok_at q1 (extra + 2) in
+          idx q1 (extra + 2) (fun tok2' =>
           let extra' := (extra + 3)%nat in
           if kind_is tok2' TComment then
-            need acc extra' q1 (fun q2 => curly_skip f' acc q2 (tok_at q2 extra') (extra' + 1) k)
-          else curly_skip f' acc q1 tok2' extra' k)
+            need acc extra' q1 (fun q2 => idx q2 extra' (fun t => curly_skip f' acc q2 t (extra' + 1) k))
+          else curly_skip f' acc q1 tok2' extra' k))
       else if kind_is tok2 TComment then
-        need acc extra q (fun q1 => curly_skip f' acc q1 (tok_at q1 extra) (extra + 1) k)
+        need acc extra q (fun q1 => idx q1 extra (fun t => curly_skip f' acc q1 t (extra + 1) k))
       else k q tok2 extra
   end.
 
@@ -272,18 +286,20 @@ Fixpoint pexpr (f : nat) (acc : list sexp) (top : bool) (q : queue) (k : sexp ->
             let as_infix q := pinfix f' acc q [] k in
             match t_kind tok2 with
             | TSymbolColon =>
-                need acc extra q3 (fun q4 =>
-                  let second := tok_at q4 extra in
+                need acc extra q3 (fun q4 => idx q4 extra (fun second =>
                   if kind_is second TSymbol && list_eqb (t_str second) str_for then as_infix q4
-                  else as_hash q4)
-            | TRCurly => k SHashEmpty (q_tail q3)
+                  else as_hash q4))
+            | TRCurly =>
+                (* `_, _ = lexer.GetNextToken() // discard '}'` pops tokens[0], which is the first skipped
+                   comment token when comments were skipped; cfix: pop the comments and the brace *)
+                k SHashEmpty (if cfix then q_drop extra q3 else q_tail q3)
             | TString =>
-                need acc extra q3 (fun q4 =>
-                  if kind_is (tok_at q4 extra) TColonOperator then as_hash q4 else as_infix q4)
+                need acc extra q3 (fun q4 => idx q4 extra (fun second =>
+                  if kind_is second TColonOperator then as_hash q4 else as_infix q4))
             | TBeginBacktickString =>
-                need acc (extra + 1) q3 (fun q4 =>
-                  if kind_is (tok_at q4 extra) TBacktickString && kind_is (tok_at q4 (extra + 1)) TColonOperator
-                  then as_hash q4 else as_infix q4)
+                need acc (extra + 1) q3 (fun q4 => idx q4 extra (fun second => idx q4 (extra + 1) (fun third =>
+                  if kind_is second TBacktickString && kind_is third TColonOperator
+                  then as_hash q4 else as_infix q4)))
             | _ => as_infix q3
             end))
     | TQuote => sugar str_quote
@@ -292,7 +308,9 @@ Fixpoint pexpr (f : nat) (acc : list sexp) (top : bool) (q : queue) (k : sexp ->
     | TTildeAt => sugar str_unquote_splicing
     | TFreshAssign | TColonOperator | TDollar => k (sym (t_str tok)) q1
     | TBool => k (SBool (list_eqb (t_str tok) str_true)) q1
-    | TUint64 => match conv_uint64 (t_str tok) with Some v => k (SUint v) q1 | None => OErr acc end
+    | TUint64 =>
+        if (length (t_str tok) <? 3)%nat then OCrash CUintSlice
+        else match conv_uint64 (t_str tok) with Some v => k (SUint v) q1 | None => OErr acc end
     | TDecimal => match parse_int 10 (remove_z 95 (t_str tok)) with Some v => k (SInt v) q1 | None => OErr acc end
     | THex => match parse_int 16 (t_str tok) with Some v => k (SInt v) q1 | None => OErr acc end
     | TOct => match parse_int 8 (t_str tok) with Some v => k (SInt v) q1 | None => OErr acc end
@@ -406,26 +424,26 @@ Definition p_reset (fuel : nat) (p : pstate) : pstate := mkP (reset (ps_lex p)) 
 Definition p_init (fuel : nat) : pstate := mkP init_lstate (ODone [] fuel).
 
 (* NewInput(piece); ParseTokens() *)
-Definition p_deliver (strict : bool) (p : pstate) (piece : list Z) : pstate :=
+Definition p_deliver (strict cfix : bool) (p : pstate) (piece : list Z) : pstate :=
   let x := lex_all (ps_lex p) piece in
   let s := lres_state x in
-  mkP (set_tokens [] s) (resume strict (ps_out p) (mkQ (l_tokens s) (negb (lres_ok x)) (in_string_or_rune s))).
+  mkP (set_tokens [] s) (resume strict cfix (ps_out p) (mkQ (l_tokens s) (negb (lres_ok x)) (in_string_or_rune s))).
 
-Fixpoint p_deliver_all (strict : bool) (p : pstate) (pieces : list (list Z)) : pstate :=
+Fixpoint p_deliver_all (strict cfix : bool) (p : pstate) (pieces : list (list Z)) : pstate :=
   match pieces with
   | [] => p
-  | x :: rest => p_deliver_all strict (p_deliver strict p x) rest
+  | x :: rest => p_deliver_all strict cfix (p_deliver strict cfix p x) rest
   end.
 
 (* WholeText: one final newline *)
 Definition nl : list Z := [10].
 
 (* the whole text in one delivery on a parser in any state *)
-Definition parse_after (strict : bool) (fuel : nat) (p : pstate) (text : list Z) : outcome :=
-  ps_out (p_deliver strict (p_reset fuel p) (text ++ nl)).
+Definition parse_after (strict cfix : bool) (fuel : nat) (p : pstate) (text : list Z) : outcome :=
+  ps_out (p_deliver strict cfix (p_reset fuel p) (text ++ nl)).
 
-Definition parse_whole (strict : bool) (fuel : nat) (text : list Z) : outcome :=
-  parse_after strict fuel (p_init fuel) text.
+Definition parse_whole (strict cfix : bool) (fuel : nat) (text : list Z) : outcome :=
+  parse_after strict cfix fuel (p_init fuel) text.
 
 (* the text in pieces; the last piece is marked as the end of the text *)
 Fixpoint mark_last (pieces : list (list Z)) : list (list Z) :=
@@ -435,8 +453,8 @@ Fixpoint mark_last (pieces : list (list Z)) : list (list Z) :=
   | x :: rest => x :: mark_last rest
   end.
 
-Definition parse_pieces (strict : bool) (fuel : nat) (pieces : list (list Z)) : outcome :=
-  ps_out (p_deliver_all strict (p_reset fuel (p_init fuel)) (mark_last pieces)).
+Definition parse_pieces (strict cfix : bool) (fuel : nat) (pieces : list (list Z)) : outcome :=
+  ps_out (p_deliver_all strict cfix (p_reset fuel (p_init fuel)) (mark_last pieces)).
 
 (* what the caller of ParseTokens observes *)
 Inductive status : Type := StDone | StMore | StErr | StCrash | StFuel.
@@ -445,7 +463,7 @@ Definition observe (o : outcome) : status * list sexp :=
   | ODone acc _ => (StDone, acc)
   | OMoreTop acc _ => (StMore, acc)
   | OErr acc => (StErr, acc)
-  | OCrash => (StCrash, [])
+  | OCrash _ => (StCrash, [])
   | OFuel => (StFuel, [])
   | OSusp acc _ _ _ => (StMore, acc)
   end.
@@ -492,7 +510,6 @@ Definition scan (text : list Z) : sstate := fold_left scan_step text (MCode, 0, 
 Definition unfinished (text : list Z) : option bool :=
   let '(m, depth, pending) := scan (text ++ nl) in
   match m with
-  | MStr | MStrEsc | MRaw | MBlock | MBlockStar => Some true
-  | MRune | MRuneEsc => None
+  | MStr | MStrEsc | MRaw | MBlock | MBlockStar | MRune | MRuneEsc => Some true
   | _ => if depth <? 0 then None else Some ((0 <? depth) || pending)
   end.
